@@ -48,12 +48,13 @@ theorem c05_on_source (ls : List Proc.Label) (s : Proc.PSt)
 
 
 
+
 -- BEGIN PINS (written by bin/mkpins; do not edit by hand)
 /-- the Go functions this property's model and obligations were written against have exactly the
 pinned skeletons (SHA-256 prefix of the atom list) -/
 theorem pinned_skeletons_c05 :
     pinsOk
-    [("Scipipe.#decls", "7633eb8a74616d59"),
+    [("Scipipe.#decls", "08e57e98702ecd70"),
      ("Scipipe.BaseProcess_CloseAllOutPorts", "50efd798f96bd05b"),
      ("Scipipe.BaseProcess_CloseOutParamPorts", "b55e88685818f821"),
      ("Scipipe.NewSink", "a492528b88e6e985"),
